@@ -57,7 +57,7 @@ def jump_counter_rule(rep, u):
                     v = core.strip_casts(c0["y"] if const_val(c0["x"]) is not None else c0["x"])
                     if v.get("k") == "ref" and fn.unit.type(v["t"])["k"] == "int":
                         incs = [x for bb in body for e in fn.blocks[bb].elems for x, _ in walk(e)
-                                if x.get("k") == "un" and "++" in x["op"] and core.is_ref(x["e"], name=v["n"])]
+                                if core.step_of(x) is not None and core.step_of(x)[1] > 0 and core.is_ref(core.strip_casts(core.step_of(x)[0]), name=v["n"])]
                         if incs:
                             cnt = v["n"]
             desc = "the compression-pointer loop at line %s is bounded by a jump counter" % (fn.blocks[h].term or {}).get("ln")
@@ -72,7 +72,7 @@ def jump_counter_rule(rep, u):
                                 core.strip_casts(e["x"])["id"] not in core.ref_ids(e["y"]):
                             jump_blocks.add(b)
                 inc_blocks = {bb for bb in body for e in fn.blocks[bb].elems for x, _ in walk(e)
-                              if x.get("k") == "un" and "++" in x["op"] and core.is_ref(x["e"], name=cnt)}
+                              if core.step_of(x) is not None and core.step_of(x)[1] > 0 and core.is_ref(core.strip_casts(core.step_of(x)[0]), name=cnt)}
                 # blocks a non-jumping iteration passes: reachable from the head inside the body without entering a jump block
                 seen, st = set(), [h]
                 while st:
